@@ -47,15 +47,29 @@ def gen_unit(rng):
         args += ["--take", str(rng.choice((0, 1, 2, 5, 50)))]
         up.append("take")
     out = rng.choice([[], [], ["--style", "consise"], ["--style", "pretty"], ["-o", "text"]])
-    return {"input": records.to_input(recs, rng), "args": args, "out": out, "upstream": sorted(set(up)),
+    unit = {"input": records.to_input(recs, rng), "args": args, "out": out, "upstream": sorted(set(up)),
             "mode": rng.choice(["group", "group", "merge"])}
+    if rng.random() < 0.25:
+        # the same records given as 1-3 files (cut between records) instead of stdin
+        texts = [jm.dumps(r).encode() for r in recs]
+        nf = rng.choice((1, 2, 2, 3))
+        bounds = [0] + sorted(rng.randint(0, len(texts)) for _ in range(nf - 1)) + [len(texts)]
+        unit["pieces"] = [b"\n".join(texts[bounds[i]:bounds[i + 1]]) for i in range(nf)]
+    return unit
 
 
 def run_unit(ctx, unit):
     st = ctx.stats
-    base = core.Case(unit["args"], unit["input"])
     gargs = unit["args"] + (["--group-by", ".g"] if unit["mode"] == "group" else ["--merge"]) + unit["out"]
-    gcase = core.Case(gargs, unit["input"])
+    if unit.get("pieces"):
+        files = [("q%d.json" % (len(unit["pieces"]) - i), p) for i, p in enumerate(unit["pieces"])]
+        fargs = ["@D@/" + n for n, _ in files]
+        base = core.Case(fargs + unit["args"], b"", files=files)
+        gcase = core.Case(fargs + gargs, b"", files=files)
+        st.count("units_delivered_as_files")
+    else:
+        base = core.Case(unit["args"], unit["input"])
+        gcase = core.Case(gargs, unit["input"])
     o0, o1 = ctx.drv.run_many([base, gcase])
     for c, o in ((base, o0), (gcase, o1)):
         if o.result != "ok":
